@@ -360,6 +360,9 @@ func (x *Exec) mathFacts(terms []*Term) []*Term {
 						continue
 					}
 					out = append(out, Implies(And(Gt(a.Args[0], mk("1.0", SReal)), Lt(a.Args[1], b.Args[1])), Lt(a, b)))
+					// consecutive exponents: pow(b, e+1) = b * pow(b, e) (b > 0)
+					out = append(out, Implies(And(Gt(a.Args[0], zero), Eq(b.Args[1], mk("+", SReal, a.Args[1], mk("1.0", SReal)))),
+						Eq(b, mk("*", SReal, a.Args[0], a))))
 				}
 			}
 		}
